@@ -78,6 +78,12 @@ package zip
 //@ spec func ZIPVALID(full string, prefix string) bool =
 //@     strings.HasPrefix(full, prefix) && ISFILEENTRY(full, prefix) && path.Clean(full[len(prefix):]) == full[len(prefix):] && PATHOK(full[len(prefix):], 2)
 //@     && (strings.EqualFold(path.Base(full[len(prefix):]), "go.mod") ==> full[len(prefix):] == "go.mod")
+//@ # entry i of the archive as the zip check judges it: its name after the prefix without a directory's trailing slash,
+//@ # and whether it is a directory entry (the prefix entry itself is not judged)
+//@ spec func ZJNAME(full string, prefix string) string = if strings.HasSuffix(full[len(prefix):], "/") then full[len(prefix):len(full)-1] else full[len(prefix):]
+//@ spec func ZJDIR(full string, prefix string) bool = strings.HasSuffix(full[len(prefix):], "/")
+//@ spec macro ZRECORDED(cc collisionChecker, full string, prefix string) bool =
+//@     len(full) > len(prefix) ==> has(cc, FOLDSTR(ZJNAME(full, prefix))) && cc[FOLDSTR(ZJNAME(full, prefix))].path == ZJNAME(full, prefix) && cc[FOLDSTR(ZJNAME(full, prefix))].isDir == ZJDIR(full, prefix)
 //@ func checkZip
 //@   requires f != nil
 //@   modifies map.collisionChecker, []FileError, ghost.WRITTEN
@@ -87,6 +93,9 @@ package zip
 //@   # which entries the zip check reports valid, and the reason behind each report of an invalid entry (call sites of
 //@   # the reporting closure in source order)
 //@   ensures [C12, C05] valid_entries: forall k int :: 0 <= k && k < len(result1.Valid) ==> ZIPVALID(result1.Valid[k], SPR2("%s@%s/", m.Path, m.Version))
+//@   # no two entries collide: entries whose names are equal under case folding are one and the same directory name
+//@   ensures [C12, C05] no_collisions: result2 == nil ==> (forall i int, j int {result0.File[i], result0.File[j]} :: 0 <= i && i < j && j < len(result0.File) && len(result0.File[i].Name) > len(SPR2("%s@%s/", m.Path, m.Version)) && len(result0.File[j].Name) > len(SPR2("%s@%s/", m.Path, m.Version)) && FOLDSTR(ZJNAME(result0.File[i].Name, SPR2("%s@%s/", m.Path, m.Version))) == FOLDSTR(ZJNAME(result0.File[j].Name, SPR2("%s@%s/", m.Path, m.Version))) ==> ZJNAME(result0.File[i].Name, SPR2("%s@%s/", m.Path, m.Version)) == ZJNAME(result0.File[j].Name, SPR2("%s@%s/", m.Path, m.Version)) && ZJDIR(result0.File[i].Name, SPR2("%s@%s/", m.Path, m.Version)) && ZJDIR(result0.File[j].Name, SPR2("%s@%s/", m.Path, m.Version)))
+//@   call collisionChecker.check requires [C12, C05] judged_by_its_name: len(zf.Name) > len(prefix) && arg_p == ZJNAME(zf.Name, prefix) && arg_isDir == ZJDIR(zf.Name, prefix)
 //@   call checkZip$1 site 0 requires [C12, C05] why_prefix: !strings.HasPrefix(zf.Name, prefix)
 //@   call checkZip$1 site 1 requires [C12, C05] why_unclean: arg_err == errPathNotClean && ZNAME(zf.Name, prefix, name, isDir) && path.Clean(name) != name
 //@   call checkZip$1 site 2 requires [C12, C05] why_illformed: arg_err != nil && ZNAME(zf.Name, prefix, name, isDir) && path.Clean(name) == name && !PATHOK(name, 2)
@@ -98,12 +107,15 @@ package zip
 //@   loop 0:
 //@     invariant 0 - 1 <= @idx && @idx < len(z.File) && z != nil && collisions != nil
 //@     invariant forall k int :: 0 <= k && k < len(cf.Valid) ==> ZIPVALID(cf.Valid[k], prefix)
+//@     invariant [C12, C05] every_entry_recorded: len(cf.Invalid) == 0 ==> (forall i int {z.File[i]} :: 0 <= i && i <= @idx ==> ZRECORDED(collisions, z.File[i].Name, prefix))
+//@     invariant [C12, C05] no_collision_so_far: len(cf.Invalid) == 0 ==> (forall i int, j int {z.File[i], z.File[j]} :: 0 <= i && i < j && j <= @idx && len(z.File[i].Name) > len(prefix) && len(z.File[j].Name) > len(prefix) && FOLDSTR(ZJNAME(z.File[i].Name, prefix)) == FOLDSTR(ZJNAME(z.File[j].Name, prefix)) ==> ZJNAME(z.File[i].Name, prefix) == ZJNAME(z.File[j].Name, prefix) && ZJDIR(z.File[i].Name, prefix) && ZJDIR(z.File[j].Name, prefix))
 //@     invariant forall i int :: 0 <= i && i < len(z.File) ==> z.File[i] != nil
 //@     invariant prefix == SPR2("%s@%s/", m.Path, m.Version)
 //@     invariant len(cf.Invalid) == 0 ==> (forall i int :: 0 <= i && i <= @idx ==> ENTRYOK(z.File[i].Name, prefix))
 //@     invariant 0 <= size && size <= MaxZipFile && fresharr(cf.Valid) && oldarrays_kept(cf.Valid)
 //@     invariant len(cf.Invalid) == 0 && cf.SizeError == nil ==> (forall i int :: 0 <= i && i <= @idx && ISFILEENTRY(z.File[i].Name, prefix) ==> 0 <= asint64(z.File[i].UncompressedSize64) && asint64(z.File[i].UncompressedSize64) <= MaxZipFile)
 //@     decreases len(z.File) - @idx
+//@   uses fold_len
 //@   props C12 C05
 
 //@ func Unzip$1
@@ -204,6 +216,8 @@ package zip
 //@   call checkFiles$1 requires [C17] size_rules_apply: (arg_err == errLICENSESize ==> arg_path == "LICENSE" && size > MaxLICENSE && !arg_omitted) && (arg_err == errGoModSize ==> arg_path == "go.mod" && size > MaxGoMod && !arg_omitted)
 //@   call checkFiles$1 requires [C17] name_rules_apply: (arg_err == errGoModCase ==> strings.ToLower(arg_path) == "go.mod" && arg_path != "go.mod" && !arg_omitted) && (arg_err == errPathNotClean ==> path.Clean(arg_path) != arg_path && !arg_omitted) && (arg_err == errPathNotRelative ==> path.IsAbs(arg_path) && !arg_omitted)
 //@   call checkFiles$1 requires [C17] omit_rules_apply: (arg_err == errVendored ==> VENDORED(arg_path, vers) && arg_omitted) && (arg_err == errHgArchivalTxt ==> arg_path == ".hg_archival.txt" && arg_omitted) && (arg_err == errSymlink ==> arg_omitted) && (arg_err == errNotRegular ==> arg_omitted) && (arg_err == errSubmoduleFile ==> arg_omitted)
+//@   # the go version that selects the vendoring rule is read from the root go.mod only (exactly that spelling)
+//@   call parseGoVers requires [C17] version_from_root_gomod: p == "go.mod"
 //@   # the decision order: each reason is given exactly on the path where its rule applies and every rule documented
 //@   # as taking precedence does not (call sites of the reporting closure in source order; site 0 is the I/O error of
 //@   # the go.mod pre-pass)
